@@ -120,9 +120,12 @@ CHECKS = {
     text='Theorems (Coq): time cell with 0..9 fractional digits -> integer ns exactly, for numerals of any length (csv_time); decimal value inverts the numeral printer; '
          'header walk: every non-time column renamed in place, signals = normalised names in order; table walk: timestamps = converted time cells in row order and each '
          'uniquely named column holds its cell of every row in row order, wherever the time column stands, any number of rows/columns. '
-         'PARTIAL: text splitting (strip, newline, comma) and the name-normalisation regexes are decided by the correspondence check '
+         'csv_fidelity: the reader as a whole on the text of any well-formed table (cells without comma/line break, one row per line, optional trailing white space): '
+         'time stamps = converted time cells in row order, signals = normalised names in file order, and each signal holds at index i the cell of row i in its column '
+         '(splitting inverts joining by induction on the text, then the walks). '
+         'PARTIAL: the name-normalisation regexes (norm_csv_name) and reading the file as text are decided by the correspondence check '
          '(extracted csv_parse vs Wal.load on generated tables) and the independent denotation oracle.',
-    technique='Coq proof (ns conversion, header and table walk by induction) + differential correspondence (extracted CSV parser) + denotation oracle'),
+    technique='Coq proof (ns conversion, split/join inversion, header and table walk, whole-reader fidelity theorem by induction) + differential correspondence (extracted CSV parser) + denotation oracle'),
  'C19': dict(
     text='Theorems (Coq): sample-at keeps one sample per distinct selected index in list order, builds lookup table and timestamps from the same list, resets the index and '
          'drops virtual caches; the value at new index j is the original value at the j-th selected sample; a later sample-at refers to original indices; trim-trace sets '
